@@ -5,6 +5,7 @@ import (
 	"go/ast"
 	"go/token"
 	"go/types"
+	"os"
 	"sort"
 	"strings"
 
@@ -37,10 +38,89 @@ func checkC18(c *Ctx) (string, []string) {
 			pos  token.Pos
 		}
 		var cands []cand
+		// the sequence under division: the parameter, or (iterative form) the half carried to the next round
+		cur := map[ssa.Value]bool{v: true}
+		idxs := map[ssa.Value]bool{}
+		if idx != nil {
+			idxs[idx] = true
+		}
+		for changed := true; changed; {
+			changed = false
+			allInstrs(f, func(in ssa.Instruction) {
+				ph, ok := in.(*ssa.Phi)
+				if !ok {
+					return
+				}
+				if _, isSlice := ph.Type().Underlying().(*types.Slice); isSlice && !cur[ph] {
+					all := len(ph.Edges) > 0
+					for _, e := range ph.Edges {
+						if cur[e] {
+							continue
+						}
+						if sl, isSl := e.(*ssa.Slice); isSl && cur[sl.X] {
+							continue
+						}
+						if inner, isPhi := e.(*ssa.Phi); isPhi && inner != ph {
+							// a join of the two halves
+							okInner := len(inner.Edges) > 0
+							for _, e2 := range inner.Edges {
+								if sl, isSl := e2.(*ssa.Slice); !(isSl && (cur[sl.X] || sl.X == ssa.Value(ph))) && !cur[e2] && e2 != ssa.Value(ph) {
+									okInner = false
+								}
+							}
+							if okInner {
+								continue
+							}
+						}
+						if sl, isSl := e.(*ssa.Slice); isSl && sl.X == ssa.Value(ph) {
+							continue
+						}
+						all = false
+					}
+					if all {
+						cur[ph] = true
+						changed = true
+					}
+				}
+				if isIntegerT(ph.Type()) && idx != nil && !idxs[ph] {
+					all := len(ph.Edges) > 0
+					for _, e := range ph.Edges {
+						e = stripConv(e)
+						if idxs[e] || e == ssa.Value(ph) {
+							continue
+						}
+						if b, isB := e.(*ssa.BinOp); isB && b.Op == token.SUB && (idxs[stripConv(b.X)] || stripConv(b.X) == ssa.Value(ph)) {
+							continue
+						}
+						if inner, isPhi := e.(*ssa.Phi); isPhi {
+							okInner := true
+							for _, e2 := range inner.Edges {
+								e2 = stripConv(e2)
+								if b, isB := e2.(*ssa.BinOp); isB && b.Op == token.SUB && (idxs[stripConv(b.X)] || stripConv(b.X) == ssa.Value(ph)) {
+									continue
+								}
+								if !idxs[e2] && e2 != ssa.Value(ph) {
+									okInner = false
+								}
+							}
+							if okInner {
+								continue
+							}
+						}
+						all = false
+					}
+					if all {
+						idxs[ph] = true
+						changed = true
+					}
+				}
+			})
+		}
+		isIdx := func(x ssa.Value) bool { return idxs[stripConv(x)] }
 		allInstrs(f, func(in ssa.Instruction) {
 			switch x := in.(type) {
 			case *ssa.Slice:
-				if x.X != ssa.Value(v) {
+				if !cur[x.X] {
 					return
 				}
 				if x.Low != nil {
@@ -53,11 +133,11 @@ func checkC18(c *Ctx) (string, []string) {
 				if idx == nil {
 					return
 				}
-				if stripConv(x.X) == idx {
+				if isIdx(x.X) {
 					if _, isC := stripConv(x.Y).(*ssa.Const); !isC {
 						cands = append(cands, cand{x.Y, "index " + x.Op.String() + " split", x.Pos()})
 					}
-				} else if stripConv(x.Y) == idx {
+				} else if isIdx(x.Y) {
 					if _, isC := stripConv(x.X).(*ssa.Const); !isC {
 						cands = append(cands, cand{x.X, "split " + x.Op.String() + " index", x.Pos()})
 					}
@@ -85,7 +165,11 @@ func checkC18(c *Ctx) (string, []string) {
 			seen[key] = true
 			bad := ""
 			for n := int64(0); n <= c.Deep(300, 20000); n++ {
-				got, ok := evalInt(cd.val, intEnv{lens: map[ssa.Value]int64{v: n}}, 0)
+				lens := map[ssa.Value]int64{}
+				for cv := range cur {
+					lens[cv] = n // every split is taken relative to the sequence under division at that point
+				}
+				got, ok := evalInt(cd.val, intEnv{lens: lens, closed: true}, 0)
 				if !ok {
 					bad = "expression " + abbr(exprStr(cd.val, shapeOpts)) + " is not a pure function of len(v)"
 					break
@@ -125,17 +209,7 @@ func checkC18(c *Ctx) (string, []string) {
 		c.requireAtoms("C18.node-function", K+"Mb", f, o, []string{"(1 == len(p0))", "(nil == p0[0])"})
 		c.requireSet("C18.node-function", K+"Mb · results", f.Pos(), "Mb returns", abbrMap(returnShapesO(f, o))["ret"], []string{"*" + K + "N(p0, p1)", "p1(p0[0])"})
 	}
-	{
-		f, o := fn["T"], optsFor(fn["T"])
-		c.requireAtoms("C18.node-function", K+"T", f, o, []string{"(p1 < " + H + ")"})
-		own := "phi(p0[:" + H + "] | p0[" + H + ":])"
-		c.requireSet("C18.node-function", K+"T · calls", f.Pos(), "T's Merkle calls", abbrAll(robustCalls(f, o, func(n string) bool { return strings.HasPrefix(n, "merkle_tree.") })), []string{
-			K + "N(" + own + ", p2)",
-			K + "T(" + own + ", phi((p1 - " + H + ") | p1), p2)",
-		})
-		// sibling/own halves are opposite: checked structurally on the phis
-		c18Halves(c, f)
-	}
+	c18T(c, fn["T"], fn["N"])
 	{
 		f, o := fn["M"], optsFor(fn["M"])
 		c.requireSet("C18.node-function", K+"M · calls", f.Pos(), "M's Merkle calls", abbrAll(robustCalls(f, o, func(n string) bool { return strings.HasPrefix(n, "merkle_tree.") })), []string{
@@ -535,4 +609,247 @@ func c18Lx(c *Ctx, f *ssa.Function, o exprOpts) {
 	rs := abbrMap(returnShapesO(f, o))
 	wantR := "⊕(make([]types.OpaqueHash, 0); [" + hashed[0] + "][:])"
 	c.Check(len(rs["ret"]) == 1 && rs["ret"][0] == wantR, "C18.paging", K+"Lx · result", f.Pos(), "appends each page leaf hash in order", fmt.Sprintf("Lx returns %v", rs["ret"]))
+}
+
+// c18T: the trace emits N(sibling half) for the half it does not descend into,
+// in the recursive form (T(own half, rebased index)) or in the iterative form
+// (the own half becomes the sequence of the next round). Split values are
+// covered by C18.split-agreement; here: which half goes where.
+func c18T(c *Ctx, t, n *ssa.Function) {
+	key := "merkle_tree.T"
+	v, idx := t.Params[0], t.Params[1]
+	// the decision "index < split" and its two arms
+	var ncalls []*ssa.Call
+	allInstrs(t, func(in ssa.Instruction) {
+		if call, ok := in.(*ssa.Call); ok && call.Call.StaticCallee() == n {
+			ncalls = append(ncalls, call)
+		}
+	})
+	if len(ncalls) == 0 {
+		c.Bad("C18.node-function", key+" · calls", t.Pos(), "T never takes the Merkle root N(·) of a sibling half")
+		return
+	}
+	// classify a slice value as the lower or the upper half of the sequence under division
+	halfOf := func(val ssa.Value) []string {
+		var out []string
+		var walk func(x ssa.Value, d int)
+		seen := map[ssa.Value]bool{}
+		walk = func(x ssa.Value, d int) {
+			if d > 6 || seen[x] {
+				return
+			}
+			seen[x] = true
+			switch y := x.(type) {
+			case *ssa.Slice:
+				switch {
+				case y.Low == nil && y.High != nil:
+					out = append(out, "lower")
+				case y.Low != nil && y.High == nil:
+					out = append(out, "upper")
+				default:
+					out = append(out, "?")
+				}
+			case *ssa.Phi:
+				for _, e := range y.Edges {
+					walk(e, d+1)
+				}
+			default:
+				out = append(out, "?")
+			}
+		}
+		walk(val, 0)
+		return uniqSorted(out)
+	}
+	// for each N call: which half is the sibling on the edge where index < split, and which on the other edge
+	lessEdges := condEdges(t, func(cv ssa.Value) (bool, bool) {
+		bo, ok := cv.(*ssa.BinOp)
+		if !ok {
+			return false, false
+		}
+		x, y := stripConv(bo.X), stripConv(bo.Y)
+		isI := func(z ssa.Value) bool {
+			if z == ssa.Value(idx) {
+				return true
+			}
+			_, isPhi := z.(*ssa.Phi)
+			return isPhi && isIntegerT(z.Type())
+		}
+		switch {
+		case bo.Op == token.LSS && isI(x):
+			return true, true
+		case bo.Op == token.GEQ && isI(x):
+			return true, false
+		case bo.Op == token.GTR && isI(y):
+			return true, true
+		case bo.Op == token.LEQ && isI(y):
+			return true, false
+		}
+		return false, false
+	})
+	if len(lessEdges) != 1 {
+		c.Bad("C18.node-function", key+" · tests", t.Pos(), "T does not make exactly one 'index < split' decision (found %d)", len(lessEdges))
+		return
+	}
+	c.OK("C18.node-function", key+" · tests", t.Pos(), "one 'index < split' decision")
+	less := lessEdges[0]
+	notLess := edge{less.from, 1 - less.succ}
+	// resolve a phi at the join by the edge taken
+	pick := func(val ssa.Value, e edge) string {
+		hs := halfOf(val)
+		if len(hs) == 1 {
+			return hs[0]
+		}
+		// phi in the join block of the decision: choose the edge whose predecessor is reached only through e
+		if ph, ok := val.(*ssa.Phi); ok {
+			for k, pe := range ph.Edges {
+				pb := ph.Block().Preds[k]
+				first := pb.Instrs[0]
+				if guardedBy(t, first, []edge{e}) || (pb == e.from && ph.Block() == e.from.Succs[e.succ]) {
+					h := halfOf(pe)
+					if len(h) == 1 {
+						return h[0]
+					}
+				}
+			}
+		}
+		return "?"
+	}
+	okSib := true
+	desc := ""
+	for _, nc := range ncalls {
+		arg := nc.Call.Args[0]
+		if guardedBy(t, nc, []edge{less}) {
+			h := pick(arg, less)
+			desc += "index<split: N(" + h + ") "
+			okSib = okSib && h == "upper"
+		} else if guardedBy(t, nc, []edge{notLess}) {
+			h := pick(arg, notLess)
+			desc += "index≥split: N(" + h + ") "
+			okSib = okSib && h == "lower"
+		} else {
+			hl, hr := pick(arg, less), pick(arg, notLess)
+			desc += "index<split: N(" + hl + "), index≥split: N(" + hr + ") "
+			okSib = okSib && hl == "upper" && hr == "lower"
+		}
+	}
+	c.Check(okSib, "C18.node-function", key+" · halves", t.Pos(), "the sibling is the upper half when the index is below the split and the lower half otherwise", "T does not pair each arm's own half with the opposite sibling half ("+desc+")")
+	// descent: recursion T(own, idx', h) or next-round sequence = own half; rebasing idx − split on the upper arm only
+	var own ssa.Value
+	var nextIdx ssa.Value
+	allInstrs(t, func(in ssa.Instruction) {
+		if call, ok := in.(*ssa.Call); ok && call.Call.StaticCallee() == t {
+			own, nextIdx = call.Call.Args[0], call.Call.Args[1]
+		}
+	})
+	form := "recursive"
+	if own == nil {
+		form = "iterative"
+		allInstrs(t, func(in ssa.Instruction) {
+			ph, ok := in.(*ssa.Phi)
+			if !ok {
+				return
+			}
+			for k, e := range ph.Edges {
+				if ph.Block().Dominates(ph.Block().Preds[k]) { // back edge
+					if _, isSlice := ph.Type().Underlying().(*types.Slice); isSlice && e != ssa.Value(v) {
+						own = e
+					}
+					if isIntegerT(ph.Type()) && stripConv(e) != ssa.Value(idx) {
+						for _, e0 := range ph.Edges {
+							if stripConv(e0) == ssa.Value(idx) {
+								nextIdx = e
+							}
+						}
+					}
+				}
+			}
+		})
+	}
+	okOwn := own != nil && pick(own, less) == "lower" && pick(own, notLess) == "upper"
+	if form == "iterative" {
+		// every back edge of the carried sequence: lower half behind index<split, upper half behind index≥split
+		nl, nu := 0, 0
+		okOwn = true
+		allInstrs(t, func(in ssa.Instruction) {
+			ph, ok := in.(*ssa.Phi)
+			if !ok {
+				return
+			}
+			if _, isSlice := ph.Type().Underlying().(*types.Slice); !isSlice {
+				return
+			}
+			// only the carried sequence itself: a phi one of whose entry edges is the sequence parameter
+			carriesV := false
+			for _, e := range ph.Edges {
+				if e == ssa.Value(v) {
+					carriesV = true
+				}
+			}
+			if !carriesV {
+				return
+			}
+			for k, e := range ph.Edges {
+				pb := ph.Block().Preds[k]
+				if !ph.Block().Dominates(pb) {
+					continue
+				}
+				switch {
+				case guardedBy(t, pb.Instrs[0], []edge{less}):
+					if h := halfOf(e); len(h) == 1 && h[0] == "lower" {
+						nl++
+					} else {
+						okOwn = false
+					}
+				case guardedBy(t, pb.Instrs[0], []edge{notLess}):
+					if h := halfOf(e); len(h) == 1 && h[0] == "upper" {
+						nu++
+					} else {
+						okOwn = false
+					}
+				default:
+					if pick(e, less) != "lower" || pick(e, notLess) != "upper" {
+						okOwn = false
+					} else {
+						nl++
+						nu++
+					}
+				}
+			}
+		})
+		if os.Getenv("JAMVERIF_EVALDEBUG") != "" {
+			fmt.Fprintf(os.Stderr, "c18T iterative: okOwn=%v nl=%d nu=%d\n", okOwn, nl, nu)
+		}
+		okOwn = okOwn && nl > 0 && nu > 0
+	}
+	c.Check(okOwn, "C18.node-function", key+" · descent", t.Pos(), "descends ("+form+") into the lower half when the index is below the split and into the upper half otherwise", "T does not continue in the half that holds the index")
+	// rebasing
+	okIdx := false
+	if nextIdx != nil {
+		var subs, same int
+		var walk func(x ssa.Value, d int)
+		walk = func(x ssa.Value, d int) {
+			if d > 5 {
+				return
+			}
+			x = stripConv(x)
+			switch y := x.(type) {
+			case *ssa.Phi:
+				for _, e := range y.Edges {
+					if stripConv(e) != ssa.Value(y) {
+						walk(e, d+1)
+					}
+				}
+			case *ssa.BinOp:
+				if y.Op == token.SUB {
+					subs++
+				}
+			default:
+				same++
+			}
+		}
+		walk(nextIdx, 0)
+		okIdx = subs >= 1
+		_ = same
+	}
+	c.Check(okIdx, "C18.node-function", key+" · rebasing", t.Pos(), "the index is rebased by the split when descending into the upper half", "the index is not rebased (index − split) on the upper arm")
 }
